@@ -37,6 +37,7 @@ type FuncContract struct {
 	Pkg         *types.Package
 	Requires    []*Clause
 	Ensures     []*Clause
+	Covers      []*Clause // "cover e": some exit must satisfy e (vacuity guard for conditional post-conditions)
 	Modifies    []*Clause
 	GhostUpdates []*Clause
 	GhostMod     []string
@@ -146,7 +147,7 @@ func (cs *ContractSet) forIface(name string, m *types.Func) *FuncContract {
 	return cs.ifaces[name]
 }
 
-var kwRe = regexp.MustCompile(`^(requires|ensures|modifies|pure|inline|trusted|maypanic|loop|results|params|recv|ghostmod|ghost|lemma|usebody|functional)\b`)
+var kwRe = regexp.MustCompile(`^(requires|ensures|cover|modifies|pure|inline|trusted|maypanic|loop|results|params|recv|ghostmod|ghost|lemma|usebody|functional)\b`)
 
 // load reads every zz_verif_contracts*.go of the loaded packages.
 func (cs *ContractSet) load(pkgs []*packages.Package) error {
@@ -276,6 +277,12 @@ func (cs *ContractSet) loadFile(path string, p *packages.Package) error {
 					return err
 				}
 				cur.Ensures = append(cur.Ensures, c)
+			case "cover":
+				c, err := mkClause(rest)
+				if err != nil {
+					return err
+				}
+				cur.Covers = append(cur.Covers, c)
 			case "modifies":
 				cur.HasModifies = true
 				for _, part := range splitTop(rest, ',') {
